@@ -64,7 +64,7 @@ Proof.
   destruct (Nat.eqb_spec i j); [contradiction|]. exact IH.
 Qed.
 
-Fixpoint nrun_log (n : net) (ops : list (nop)) : nlog :=
+Fixpoint nrun_log (n : net) (ops : list (nop A)) : nlog :=
   match ops with
   | [] => []
   | o :: r => let '(n', res) := nstep n o in tag (nop_chain o) res ++ nrun_log n' r
@@ -72,7 +72,7 @@ Fixpoint nrun_log (n : net) (ops : list (nop)) : nlog :=
 
 (** operations of the honest-header network: light-client contents come only
     from NCreate / NUpd (which record the counterparty's real store) *)
-Definition nop_ok (o : nop) : Prop :=
+Definition nop_ok (o : nop A) : Prop :=
   match o with
   | NChain _ _ o' => op_wf o' /\ not_client_op o'
   | _ => True
@@ -151,8 +151,8 @@ Proof.
                  kv_explained snap (log_of j (nl ++ tag i (Some ev)))).
   { intros j snap X. rewrite log_of_app. apply explained_mono. exact X. }
   assert (NAME : c_name ci' = c_name ci).
-  { destruct o' as [p|p pf h|p a pf h|cp|cp pf h|nm cl|nm h sn t|rs|dt].
-    1-5,8,9: (eapply exec_clients_same in E; [destruct E as [_ E]; exact E | exact I]).
+  { destruct o' as [p|p pf h|p a pf h|cp|cp pf h|nm cl|nm h sn t|rs|dt|ap].
+    1-5,8-10: (eapply exec_clients_same in E; [destruct E as [_ E]; exact E | exact I]).
     - cbn [Keeper.exec] in E. unfold create_client in E.
       destruct (has nm _); cbn [option_map] in E; [discriminate|]. inversion E; reflexivity.
     - cbn [Keeper.exec] in E. unfold update_client in E.
@@ -331,3 +331,5 @@ Proof.
 Qed.
 
 End NetInv.
+
+Arguments nop_ok {A} o.
